@@ -69,6 +69,9 @@ def run(chk):
         items.append(("Negate " + al, lambda al=al: L1m.api_negate(l1, al)))
     l1b = L1m.L1(base, chk)
     items.append(("SetBytes", lambda: c04.k_setbytes(l1b)))
+    # the SqrtRatio contract used by the SetBytes step is discharged here too (case analysis of the real body, as in C16)
+    from . import c16
+    items += c16.sqrt_case_items(base, chk)
     l1c = L1m.L1(base, chk)
     items.append(("SetExtendedCoordinates", lambda: c13.k_setext(l1c)))
     maxn = 4 if chk.tier == "thorough" else 2
@@ -141,6 +144,8 @@ def run(chk):
         obs = [o for o in chk.obs if pred(o)]
         taken.update(id(o) for o in obs)
         L1m.settle(chk, obs, bat, key)
+    c16.sqrt_settle(chk)
+    taken.update(id(o) for o in chk.obs if o.name.startswith("SqrtRatio["))
     rest = [o for o in chk.obs if id(o) not in taken and not o.ok() and not o.verdict.startswith("uncovered")]
     L1m.settle(chk, rest, lambda: validity_battery(chk.seed), "point formulas (internal)")
     chk.extra.pop("setext_accept_polys", None); chk.extra.pop("setext_reject_polys", None)
